@@ -7,6 +7,7 @@ package c08
 
 import (
 	"fmt"
+	"math"
 	"math/big"
 	"strconv"
 
@@ -154,6 +155,26 @@ func (e *engine) structuralOne(v *value, jv gojq.JQValue) {
 		if len(seen) != l {
 			bad("JQValueKeys(count)", len(seen), strconv.Itoa(l))
 		}
+		if _, isCompound := v.dv.V.(*decode.Compound); !isCompound && l >= 2 {
+			// a scalar that holds an object has no input order: `keys` must be sorted
+			// like for any object (64 calls: Go map iteration order varies)
+			for try := 0; try < 64; try++ {
+				ks, _ := jv.JQValueKeys().([]any)
+				sorted := true
+				for i := 1; i < len(ks); i++ {
+					a, _ := ks[i-1].(string)
+					b, _ := ks[i].(string)
+					if a >= b {
+						sorted = false
+					}
+				}
+				if !sorted {
+					e.r.Violate("scalar-object-decode-value-keys-not-sorted", fmt.Sprintf("%s (%s, value %s): JQValueKeys gives %s: `keys` of a scalar decode value that holds an object is not sorted (and varies between calls)", v, leafClass(v), trunc(canon(want, cmode{}), 80), canon(ks, cmode{})),
+						map[string]any{"kind": "structural", "tree": v.t.name, "path": v.path, "signature": "scalar-object-decode-value-keys-not-sorted"})
+					break
+				}
+			}
+		}
 		if c, ok := v.dv.V.(*decode.Compound); ok && !c.IsArray {
 			// struct fields iterate in input order
 			names := make([]any, len(c.Children))
@@ -249,6 +270,24 @@ func (e *engine) structuralOne(v *value, jv gojq.JQValue) {
 		eq("JQValueKey(absent)", jv.JQValueKey("nosuch"), nil)
 	default: // number
 		eq("JQValueToNumber", jv.JQValueToNumber(), want)
+		// tostring of a number is its JSON text: exact for integers of any size
+		if ts, ok := jv.JQValueToString().(string); ok {
+			n++
+			cw := canon(want, cmode{})
+			switch want.(type) {
+			case float64:
+				f, err := strconv.ParseFloat(ts, 64)
+				if wf := want.(float64); !math.IsNaN(wf) && !math.IsInf(wf, 0) && (err != nil || f != wf) {
+					bad("JQValueToString", ts, "a JSON text of "+cw)
+				}
+			default:
+				if ts != cw {
+					bad("JQValueToString", ts, cw)
+				}
+			}
+		} else {
+			bad("JQValueToString", jv.JQValueToString(), "a string")
+		}
 		mustErr("JQValueKeys", jv.JQValueKeys())
 		mustErr("JQValueEach", jv.JQValueEach())
 		mustErr("JQValueHas", jv.JQValueHas("a"))
